@@ -1,6 +1,6 @@
 (* Properties/C05.v — pinned statements only. *)
 From Boreal Require Import Base.Prelude Base.Res Model.Eval Spec.CondSem Model.EvalCost Model.Scanner
-     Spec.RuleSetSpec Proofs.ScannerProofs Proofs.NoScanScannerProofs Proofs.CallbackProofs.
+     Spec.RuleSetSpec Proofs.ScannerProofs Proofs.NoScanScannerProofs Proofs.CallbackProofs Proofs.IndepProofs.
 
 (* The scan procedure (global rules first with delayed reporting, namespace disabling, fix-up of
    invalidated global rules, then ordinary rules with positional references to earlier results)
@@ -80,6 +80,60 @@ Theorem C05_global_refs_ordinary_refuted :
 Proof. exact global_refs_ordinary_refuted. Qed.
 
 (* non-vacuity: two namespaces, a failing global rule in the first, a private rule referenced in the second *)
+(* Namespace independence (the rule-level half of C12): rules of other namespaces — global rules gB with
+   their strings, ordinary rules rB — declared after the rules of a set A leave the verdict of every rule of
+   A, global or ordinary, what it is for A alone.  Only the global rules added must live in other namespaces
+   than A's rules; the string matches are laid out as the compiler lays them out (strings of global rules
+   first). *)
+Theorem C05_ns_independent :
+  forall inp n n' gA gB rA rB mgA mgB mrA mrB,
+    length mgA = nvars_of gA -> length mgB = nvars_of gB -> length mrA = nvars_of rA ->
+    (forall a b, In a (gA ++ rA) -> In b gB -> r_ns b <> r_ns a) ->
+    let scA := {| s_globals := gA; s_rules := rA; s_nns := n |} in
+    let scAB := {| s_globals := gA ++ gB; s_rules := rA ++ rB; s_nns := n' |} in
+    let vA := spec_verdicts scA (with_matches inp (mgA ++ mrA)) in
+    exists vgB vrB,
+      spec_verdicts scAB (with_matches inp (mgA ++ mgB ++ mrA ++ mrB))
+      = firstn (length gA) vA ++ combine gB vgB ++ skipn (length gA) vA ++ combine rB vrB
+      /\ length vgB = length gB /\ length vrB = length rB.
+Proof. exact spec_verdicts_independent. Qed.
+
+(* ... and declared before them: the references of A's conditions to earlier rules of A are then the same
+   references shifted by the number of ordinary rules added (`shift_rule`), and the verdicts are unchanged. *)
+Theorem C05_ns_independent_before :
+  forall inp n n' gA gB rA rB mgA mgB mrA mrB,
+    length mgA = nvars_of gA -> length mgB = nvars_of gB -> length mrB = nvars_of rB ->
+    (forall a b, In a (gA ++ rA) -> In b gB -> r_ns b <> r_ns a) ->
+    let scA := {| s_globals := gA; s_rules := rA; s_nns := n |} in
+    let scBA := {| s_globals := gB ++ gA; s_rules := rB ++ map (shift_rule (length rB)) rA; s_nns := n' |} in
+    let vA := map snd (spec_verdicts scA (with_matches inp (mgA ++ mrA))) in
+    exists vgB vrB,
+      map snd (spec_verdicts scBA (with_matches inp (mgB ++ mgA ++ mrB ++ mrA)))
+      = vgB ++ firstn (length gA) vA ++ vrB ++ skipn (length gA) vA
+      /\ length vgB = length gB /\ length vrB = length rB.
+Proof. exact spec_verdicts_independent_before. Qed.
+
+(* shifting the references by the number of rules put in front does not change what a condition means *)
+Theorem C05_shift_rules_sem :
+  forall q pB e sel stack,
+    sem (with_prev q (pB ++ q_prev q)) sel stack (shift_rules (length pB) e) = sem q sel stack e.
+Proof. exact sem_shift. Qed.
+
+Example C05_independence_example :
+  let gA := {| r_ns := 0; r_id := 0; r_global := true; r_private := false; r_nvars := 1; r_cond := EVar (Some 0%nat) |} in
+  let a1 := {| r_ns := 0; r_id := 1; r_global := false; r_private := false; r_nvars := 0; r_cond := EBool true |} in
+  let a2 := {| r_ns := 0; r_id := 2; r_global := false; r_private := false; r_nvars := 0; r_cond := EUn UNot (ERule 0) |} in
+  let gB := {| r_ns := 1; r_id := 3; r_global := true; r_private := false; r_nvars := 1; r_cond := EVar (Some 0%nat) |} in
+  let b1 := {| r_ns := 1; r_id := 4; r_global := false; r_private := false; r_nvars := 0; r_cond := EBool true |} in
+  let inp := {| i_matches := []; i_ext := []; i_filesize := Some 1; i_mem := Some [97]; i_ac := []; i_imports := [] |} in
+  let m := [{| m_base := 0; m_off := 0; m_len := 1 |}] in
+  map snd (spec_verdicts {| s_globals := [gA]; s_rules := [a1; a2]; s_nns := 1 |} (with_matches inp [m])) = [true; true; false]
+  /\ map snd (spec_verdicts {| s_globals := [gA; gB]; s_rules := [a1; a2; b1]; s_nns := 2 |}
+                            (with_matches inp [m; []])) = [true; false; true; false; false]
+  /\ map snd (spec_verdicts {| s_globals := [gB; gA]; s_rules := b1 :: map (shift_rule 1) [a1; a2]; s_nns := 2 |}
+                            (with_matches inp [[]; m])) = [false; true; false; true; false].
+Proof. vm_compute. repeat split. Qed.
+
 Example C05_example :
   let g0 := {| r_ns := 0; r_id := 0; r_global := true; r_private := false; r_nvars := 0; r_cond := EBool true |} in
   let g1 := {| r_ns := 0; r_id := 1; r_global := true; r_private := false; r_nvars := 1; r_cond := EVar (Some 0%nat) |} in
@@ -93,6 +147,9 @@ Example C05_example :
   /\ map er_id (spec_reported sc inp false) = [3].
 Proof. vm_compute. repeat split. Qed.
 
+Print Assumptions C05_ns_independent.
+Print Assumptions C05_ns_independent_before.
+Print Assumptions C05_shift_rules_sem.
 Print Assumptions C05_scan_eq_spec.
 Print Assumptions C05_scan_eq_spec_any_config.
 Print Assumptions C05_callback_same.
